@@ -274,7 +274,11 @@ class ParseFunc(_ast_util.NodeVisitor):
     def visit_FunctionDef(self, node):
         self.listener.funcname = node.name
 
-        argnames = [arg_id(arg) for arg in node.args.args]
+        # positional-only parameters are declared as ordinary ones (the
+        # "/" marker is not carried through)
+        argnames = [
+            arg_id(arg) for arg in node.args.posonlyargs + node.args.args
+        ]
         if node.args.vararg:
             argnames.append(node.args.vararg.arg)
 
